@@ -48,6 +48,9 @@ SPECTRAL = ('Heat1DChebychev', 'Heat1DUltraspherical', 'Heat2DUltraspherical', '
 LINEAR = {'testequation0d', 'test_equation_IMEX', 'heatNd_forced', 'heatNd_unforced', 'advectionNd', 'piline', 'buck_converter', 'acoustic_1d_imex', 'advectiondiffusion1d_imex', 'advectiondiffusion1d_implicit'}
 
 
+EXTERNAL_LIBRARIES = ('cupy', 'mpi4py', 'mpi4py_fft', 'petsc4py', 'firedrake', 'dolfin', 'fenics', 'gusto', 'torch', 'jax')
+
+
 def discover():
     from pySDC.core.problem import Problem
 
@@ -56,7 +59,9 @@ def discover():
         mod = 'pySDC.implementations.problem_classes.' + os.path.basename(fn)[:-3]
         try:
             m = importlib.import_module(mod)
-        except Exception as e:
+        except ModuleNotFoundError as e:
+            if (e.name or '').split('.')[0] not in EXTERNAL_LIBRARIES:
+                raise  # a module of the library itself is missing: the tree is broken, not "uncovered"
             failed.append((os.path.basename(fn), f'{type(e).__name__}: {str(e)[:60]}'))
             continue
         for n, c in inspect.getmembers(m, inspect.isclass):
